@@ -226,7 +226,8 @@ def obligations(tier, rng):
     P1 = ('implies', ('geq', X, ('const', 3.0)), ('geq', Y, ('const', 0.5)))
     for p in [P1, ('geq', ('sub', X, Y), C1), ('once_t', ('leq', Y, C1), 0, 1)]:
         for sem in SEMS:
-            for xa, ya in [('input', 'input>output'), ('output>input', 'output'), ('input>output>input', 'output>input>output'), ('output>input', 'input>output')]:
+            for xa, ya in [('input', 'input>output'), ('output>input', 'output'), ('input>output>input', 'output>input>output'), ('output>input', 'input>output'),
+                           ('input>redeclare', 'output'), ('input>redeclare', 'input'), ('output>input>redeclare', 'input>redeclare>input')]:
                 io = {'x': xa, 'y': ya}
                 for mon in mons:
                     if mon == 'ct-online' and sem != 'standard' and p is not P1:
